@@ -101,18 +101,21 @@ EvReason(es, A) ==
   ELSE "ok"
 
 \* NO_FLOOD set NF for adjacency A and connected switches cn
-FloodReason(A, cn, NF) ==
+\* (nf0 = the set before the step: bits of unreachable switches cannot change)
+FloodReason(A, cn, NF, nf0) ==
   LET cp == PortsIn(cn)
       ip == Ends(A)
-      T  == TreeLinks(A, NF)
       B  == Bi(A)
+      T  == {l \in B : <<l[1], l[2]>> \notin NF /\ <<l[3], l[4]>> \notin NF}
+      et == Ends(T)
+      cm == [s \in Switches |-> Comp(s, T)]          \* components of the enabled links
   IN
   IF ~(NF \subseteq PortsIn(Switches)) THEN "flood-unknown-port"
-  ELSE IF (NF \ cp) # (nf \ cp) THEN "flood-port-of-disconnected-switch-changed"
+  ELSE IF (NF \ cp) # (nf0 \ cp) THEN "flood-port-of-disconnected-switch-changed"
   ELSE IF \E sp \in cp \ ip : sp \in NF THEN "flood-host-port-blocked"
-  ELSE IF \E sp \in (cp \cap ip) \ NF : sp \notin Ends(T) THEN "flood-nontree-port-enabled"
-  ELSE IF Cardinality(T) # 2 * (net.n - NComp(Switches, T)) THEN "flood-cycle"
-  ELSE IF \E l \in B : l[3] \notin Comp(l[1], T) THEN "flood-not-spanning"
+  ELSE IF \E sp \in (cp \cap ip) \ NF : sp \notin et THEN "flood-nontree-port-enabled"
+  ELSE IF Cardinality(T) # 2 * (net.n - Cardinality({cm[s] : s \in Switches})) THEN "flood-cycle"
+  ELSE IF \E l \in B : l[3] \notin cm[l[1]] THEN "flood-not-spanning"
   ELSE "ok"
 
 Reason(R, ph, cn, ag, q, dt, lv0) ==
@@ -120,7 +123,7 @@ Reason(R, ph, cn, ag, q, dt, lv0) ==
   IF a # "ok" THEN a
   ELSE LET e == EvReason(R.evs, R.adj) IN
        IF e # "ok" THEN e
-       ELSE FloodReason(R.adj, cn, R.nf)
+       ELSE FloodReason(R.adj, cn, R.nf, nf)
 
 ----------------------------------------------------------------------------
 (* What a flooded frame does (the "so ..." clause): it enters switch s on   *)
@@ -164,7 +167,8 @@ Init == /\ net \in Nets
 
 Log(a, args, exp) ==
   /\ last' = [a |-> a, args |-> args, exp |-> exp]
-  /\ hist' = Append(hist, [a |-> a, args |-> args, exp |-> exp])
+  /\ hist' = IF D = 0 THEN hist              \* D = 0: no export, keep states small
+             ELSE Append(hist, [a |-> a, args |-> args, exp |-> exp])
 
 NewAge(ph, cn, dt) ==
   [l \in net.wires |-> IF IsLive(l, ph, cn) # IsLive(l, phys, conn) THEN 0
@@ -199,23 +203,18 @@ Apply(a, args, ph, cn, dt, q, R) ==
   /\ UNCHANGED net
   /\ Log(a, args, [adj |-> R.adj, evs |-> R.evs, nf |-> R.nf])
 
-Respond(a, args, ph, cn, dt, q, R) ==
-  /\ Permitted(R, ph, cn, dt, q)
-  /\ Apply(a, args, ph, cn, dt, q, R)
 
-SwitchUp(s, R) ==
-  /\ s \in Switches \ conn
-  /\ MembershipMayChange
-  /\ Respond("SwitchUp", [s |-> s], phys, conn \cup {s}, 0, 0, R)
+\* each controller step = environment guard /\ response permitted /\ effect
+UpEnv(s)   == s \in Switches \ conn /\ MembershipMayChange
+DownEnv(s) == s \in conn /\ MembershipMayChange
+AdvEnv(d)  == d >= 1
+UpDo(s, R)   == Apply("SwitchUp", [s |-> s], phys, conn \cup {s}, 0, 0, R)
+DownDo(s, R) == Apply("SwitchDown", [s |-> s], phys, conn \ {s}, 0, 0, R)
+AdvDo(d, R)  == Apply("Advance", [d |-> d], phys, conn, d, Min(quiet + d, Cap), R)
 
-SwitchDown(s, R) ==
-  /\ s \in conn
-  /\ MembershipMayChange
-  /\ Respond("SwitchDown", [s |-> s], phys, conn \ {s}, 0, 0, R)
-
-Advance(d, R) ==
-  /\ d >= 1
-  /\ Respond("Advance", [d |-> d], phys, conn, d, Min(quiet + d, Cap), R)
+SwitchUp(s, R)   == UpEnv(s) /\ Permitted(R, phys, conn \cup {s}, 0, 0) /\ UpDo(s, R)
+SwitchDown(s, R) == DownEnv(s) /\ Permitted(R, phys, conn \ {s}, 0, 0) /\ DownDo(s, R)
+Advance(d, R)    == AdvEnv(d) /\ Permitted(R, phys, conn, d, Min(quiet + d, Cap)) /\ AdvDo(d, R)
 
 \* a frame from a host is flooded through the converged network
 Flood(s, p) ==
@@ -240,22 +239,16 @@ AdjChoices(ph, cn, dt, q) ==
   IN {A \in SUBSET (adj \cup LiveSet(ph, cn)) : AdjReason(A, ph, cn, ag, q, dt, lv0) = "ok"}
 NFChoices(A, cn) ==
   LET cp == PortsIn(cn)
-  IN {N \in {(nf \ cp) \cup X : X \in SUBSET (Ends(A) \cap cp)} : FloodReason(A, cn, N) = "ok"}
+  IN {N \in {(nf \ cp) \cup X : X \in SUBSET (Ends(A) \cap cp)} : FloodReason(A, cn, N, nf) = "ok"}
 Responses(ph, cn, dt, q) ==
   UNION {{[adj |-> A, evs |-> CanonEvs(A), nf |-> N] : N \in NFChoices(A, cn)}
          : A \in AdjChoices(ph, cn, dt, q)}
 
 \* (every R in Responses() is Permitted: the guard of SwitchUp/SwitchDown/
 \* Advance is not evaluated a second time here)
-UpNext(s)      == /\ s \in Switches \ conn /\ MembershipMayChange
-                  /\ \E R \in Responses(phys, conn \cup {s}, 0, 0) :
-                        Apply("SwitchUp", [s |-> s], phys, conn \cup {s}, 0, 0, R)
-DownNext(s)    == /\ s \in conn /\ MembershipMayChange
-                  /\ \E R \in Responses(phys, conn \ {s}, 0, 0) :
-                        Apply("SwitchDown", [s |-> s], phys, conn \ {s}, 0, 0, R)
-AdvanceNext(d) == /\ d >= 1
-                  /\ \E R \in Responses(phys, conn, d, Min(quiet + d, Cap)) :
-                        Apply("Advance", [d |-> d], phys, conn, d, Min(quiet + d, Cap), R)
+UpNext(s)      == UpEnv(s) /\ \E R \in Responses(phys, conn \cup {s}, 0, 0) : UpDo(s, R)
+DownNext(s)    == DownEnv(s) /\ \E R \in Responses(phys, conn \ {s}, 0, 0) : DownDo(s, R)
+AdvanceNext(d) == AdvEnv(d) /\ \E R \in Responses(phys, conn, d, Min(quiet + d, Cap)) : AdvDo(d, R)
 CutNext        == \E l \in phys : Cut(l)
 RestoreNext    == \E l \in net.wires \ phys : Restore(l)
 FloodNext      == \E s \in Switches : \E p \in HostPorts(s) : Flood(s, p)
@@ -310,7 +303,7 @@ ExactWhenSettled == (quiet >= Detect /\ \A l \in net.wires : age[l] >= Expire)
 \* flooding: host-facing ports flood; the enabled inter-switch ports are the
 \* two ends of links forming a forest that spans the bidirectional components
 HostPortsFlood == \A sp \in PortsIn(conn) \ Ends(adj) : sp \notin nf
-ForestOK       == FloodReason(adj, conn, nf) = "ok"
+ForestOK       == FloodReason(adj, conn, nf, nf) = "ok"
 Acyclic        == LET T == TreeLinks(adj, nf) IN Cardinality(T) = 2 * (net.n - NComp(Switches, T))
 Spanning       == \A s \in Switches : Comp(s, TreeLinks(adj, nf)) = Comp(s, Bi(adj))
 
@@ -341,6 +334,8 @@ NeverDropsLive ==
 
 \* ---- export for the scenario generator
 Bound   == Len(hist) <= D
-Export  == (Len(hist) = D) => PrintT(<<"H", ToJson(hist)>>)
-ExportT == PrintT(<<"T", ToJson(hist')>>)
+\* (the scenario generator needs the net and the wires that were up at the start:
+\* the latter is recovered from the final `phys` by undoing the Cut/Restore steps)
+Export  == (Len(hist) = D) => PrintT(<<"H", ToJson([net |-> net, phys |-> phys, h |-> hist])>>)
+ExportT == PrintT(<<"T", ToJson([net |-> net', phys |-> phys', h |-> hist'])>>)
 =============================================================================
